@@ -172,7 +172,8 @@ def check_case(case, res: Result):
         root = os.path.join(top, "root")
         os.makedirs(root)
         core.write_tree(root, {f: "int x;\n" for f in case["files"]}, case["links"])
-        core.write_tree(top, {"outside/o.c": "int o;\n"})
+        # files outside the code base, one of them in a sibling directory whose name starts with the root's name
+        core.write_tree(top, {"outside/o.c": "int o;\n", "root-old/stale.c": "int s;\n", "rootx/sub/y.cpp": "int y;\n"})
         os.symlink(os.path.join(root, case["files"][0]), os.path.join(top, "outside", "into.c"))
         rroot = os.path.realpath(root)
         cb = CodeBase(root, exclude_patterns=list(case["patterns"]))
@@ -189,6 +190,9 @@ def check_case(case, res: Result):
             p = os.path.join(root, ln)
             spellings.setdefault(os.path.realpath(p), []).append(p)
         spellings.setdefault(os.path.realpath(os.path.join(top, "outside", "into.c")), []).append(os.path.join(top, "outside", "into.c"))
+        for rel in ("outside/o.c", "root-old/stale.c", "rootx/sub/y.cpp"):
+            spellings.setdefault(os.path.realpath(os.path.join(top, rel)), []).append(os.path.join(top, rel))
+            spellings[os.path.realpath(os.path.join(top, rel))].append(os.path.join(root, "..", rel))
         # oracle
         cand = {}
         for real in spellings:
